@@ -221,22 +221,22 @@ def run(repo, rep):
     if sod is None:
         raise AnalysisError('sequence_of_docs vanished')
     defs = {k_: v[0] for k_, v in single_defs(sod.node).items() if len(v) == 1}
-    wb = defs.get('will_break')
     n += 1
     ok = False
-    detail = src(wb) if wb is not None else 'no will_break'
-    if wb is not None:
-        # force_break or <len-linear> > CONST
-        parts = wb.values if isinstance(wb, ast.BoolOp) and isinstance(wb.op, ast.Or) else [wb]
-        for p in parts:
-            if isinstance(p, ast.Compare) and isinstance(p.ops[0], (ast.Gt, ast.GtE)):
-                try:
-                    fm = form(_fold_len(p.left, defs))
-                    names = set(fm.terms) if isinstance(fm, Lin) else set()
-                    ok = isinstance(fm, Lin) and names == {'len(docs)'} and fm.terms['len(docs)'] > 0
-                    detail = 'minimum length = %s' % fm.text()
-                except (NotLinear, AttributeError):
-                    ok = False
+    detail = 'no comparison of a minimum output length with a constant'
+    # wherever it is written (a named flag, an if statement, an early return):  <linear in len(docs), increasing> > CONST
+    for p in ast.walk(sod.node):
+        if isinstance(p, ast.Compare) and len(p.ops) == 1 and isinstance(p.ops[0], (ast.Gt, ast.GtE, ast.Lt, ast.LtE)):
+            big, small = (p.left, p.comparators[0]) if isinstance(p.ops[0], (ast.Gt, ast.GtE)) else (p.comparators[0], p.left)
+            try:
+                fm = form(_fold_len(big, defs))
+            except (NotLinear, AttributeError):
+                continue
+            names = set(fm.terms) if isinstance(fm, Lin) else set()
+            if isinstance(fm, Lin) and names == {'len(docs)'}:
+                if fm.terms['len(docs)'] > 0:
+                    ok = True
+                detail = 'minimum length = %s' % fm.text()
     rep.check(ok, 'C12.d', 'sequence_of_docs:shortcut-monotone-in-len', sod.where,
               'shortcut depends only on len(docs), increasing', 'the long-sequence shortcut is computed as %s' % detail, nontrivial=True)
     rep.floor('C12.d', n, 1)
